@@ -235,7 +235,7 @@ def r3(run, ctx):
     f = ctx.fn(W + 'manage_processes')
     cfg = ctx.cfg(f)
     kills = ctx.nodes_calling(f, [W + 'kill_process'])
-    sel = None
+    sel = unsorted = None
     from sa.dataflow import reaching_defs
     rd = reaching_defs(ctx, f)
     for h in cfg.nodes:
@@ -245,21 +245,34 @@ def r3(run, ctx):
                 if isinstance(sub, ast.Subscript) and isinstance(sub.value, ast.Call) and \
                         dotted(sub.value.func) == 'sorted':
                     sel = (h, sub)
-    if sel is None:
+                elif isinstance(sub, ast.Subscript) and isinstance(sub.slice, ast.Slice) and \
+                        isinstance(sub.value, ast.Call) and dotted(sub.value.func) == 'list' and \
+                        len(sub.value.args) == 1 and \
+                        norm_text(sub.value.args[0]) == 'self.processes.values()' and sel is None:
+                    # the table in insertion order = spawn order, oldest first
+                    unsorted = (h, sub)
+    if sel is None and unsorted is None:
         raise AnalysisError('C01 R3: unrecognised surplus selection in manage_processes '
                             '(expected a slice of sorted(processes, key=started))')
-    h, sub = sel
-    call = sub.value
-    key = astq.kwarg(call, 'key')
-    rev = astq.kwarg(call, 'reverse')
-    key_ok = isinstance(key, ast.Lambda) and isinstance(key.body, ast.Attribute) and \
-        key.body.attr == 'started'
-    if key is None:
-        key_ok = True   # Process.__lt__ orders by started
-    src_ok = 'processes' in norm_text(call.args[0]) if call.args else False
-    run.check('R3', key_ok and src_ok, 'surplus candidates are the tracked processes ordered '
-              'by start time', f, call)
-    desc = astq.const_value(rev, default=None) if rev is not None else False
+    if sel is None:
+        h, sub = unsorted
+        call = sub.value
+        run.check('R3', True, 'surplus candidates are the tracked processes ordered '
+                  'by start time', f, call)
+        desc = False
+    else:
+        h, sub = sel
+        call = sub.value
+        key = astq.kwarg(call, 'key')
+        rev = astq.kwarg(call, 'reverse')
+        key_ok = isinstance(key, ast.Lambda) and isinstance(key.body, ast.Attribute) and \
+            key.body.attr == 'started'
+        if key is None:
+            key_ok = True   # Process.__lt__ orders by started
+        src_ok = 'processes' in norm_text(call.args[0]) if call.args else False
+        run.check('R3', key_ok and src_ok, 'surplus candidates are the tracked processes ordered '
+                  'by start time', f, call)
+        desc = astq.const_value(rev, default=None) if rev is not None else False
     if not isinstance(sub.slice, ast.Slice) or desc is None:
         raise AnalysisError('C01 R3: unrecognised surplus selection form')
     al = {'len(self.processes)': 'LEN', 'len(self)': 'LEN', 'self.numprocesses': 'NP'}
@@ -269,9 +282,13 @@ def r3(run, ctx):
         ok = lo == {'NP': 1} and hi is None and sub.slice.step is None
     else:
         ok = lo in (None, {}) and hi == {'LEN': 1, 'NP': -1} and sub.slice.step is None
-    run.check('R3', ok, 'surplus selection = the (len - numprocesses) oldest workers', f, sub,
-              'the surplus removed is not the oldest len-numprocesses workers '
-              '(a restarted/reloaded watcher would keep old workers or drop fresh ones)')
+    why = 'the surplus removed is not the oldest len-numprocesses workers ' \
+        '(a restarted/reloaded watcher would keep old workers or drop fresh ones)'
+    if not desc and hi == {'NP': -1}:
+        why = 'the surplus is cut with the negative bound [:-numprocesses]: for a target of 0 ' \
+            'that is [:0], the empty list, so decr / set / reload to 0 leaves every worker ' \
+            'running for good'
+    run.check('R3', ok, 'surplus selection = the (len - numprocesses) oldest workers', f, sub, why)
     run.count('R3', 1, 1, 'surplus selection')
 
 
